@@ -7,7 +7,7 @@ history correspondence (Tie B): the same op lines run on the Lean driver and on 
 from vlib import histcheck
 
 MODULE = "TriompheModel.Props.C01"
-EXTRA = ["TriompheModel.Proofs.HistInv", "TriompheModel.Proofs.HistVal", "TriompheModel.Props.Monitor"]
+EXTRA = ["TriompheModel.Proofs.HistInv", "TriompheModel.Proofs.HistVal", "TriompheModel.Props.Monitor", "TriompheModel.Props.Gates"]
 TAGS = ['C01']
 WEIGHTS = {}
 
